@@ -284,7 +284,10 @@ def _build_tree(
         # faster string manipulation instead of a more robust relparts()
         rel_key: tuple[str, ...] = ()
         if root != path:
-            rel_key = tuple(root[len(path) + 1 :].split(fs.sep))
+            # (below the current directory the normalized roots come without
+            # the "./" in front)
+            rel = root if path == os.curdir else root[len(path) + 1 :]
+            rel_key = tuple(rel.split(fs.sep))
 
         callback.set_size((callback.size or 0) + len(files))
         objects = _build_files(
